@@ -261,7 +261,9 @@ func durationFactor(v ssa.Value) (num, den int64, ok bool) {
 func (c *Ctx) keepAliveValue() {
 	r := c.Roles()
 	fn := r.Accept
-	g := paths.New(c.P, fn, 0)
+	g := paths.New(c.P, fn, 1)
+	var kaHost *ssa.Function
+	g.Expand = func(callee *ssa.Function, site ssa.CallInstruction) bool { return kaHost != nil && callee == kaHost && kaHost != fn }
 	setDefault := func(n paths.Node) bool {
 		call := paths.CallAt(n)
 		if call == nil || !ir.IsMethod(call.Common(), pkgMessage, "ConnectMessage", "SetKeepAlive") {
@@ -276,7 +278,14 @@ func (c *Ctx) keepAliveValue() {
 	}
 	// the store of the service's keepAlive field
 	var kaStore *ssa.Store
-	for _, b := range fn.Blocks {
+	// in the accept function itself, or in the constructor helper of the Server it builds the service with
+	hostBlocks := append([]*ssa.BasicBlock(nil), fn.Blocks...)
+	for _, call := range ir.Calls(fn) {
+		if h := call.Common().StaticCallee(); h != nil && h != fn && h.Blocks != nil && recvNamed(h) == "Server" {
+			hostBlocks = append(hostBlocks, h.Blocks...)
+		}
+	}
+	for _, b := range hostBlocks {
 		for _, in := range b.Instrs {
 			if st, ok := in.(*ssa.Store); ok {
 				if fa, ok := st.Addr.(*ssa.FieldAddr); ok {
@@ -292,6 +301,7 @@ func (c *Ctx) keepAliveValue() {
 		c.R.Bad(ruleP8, "accept:service-keepalive-from-CONNECT", c.P.Pos(fn.Pos()), "the accept function does not store a keep-alive value in the service")
 		return
 	}
+	kaHost = kaStore.Parent()
 	// every leaf of the stored value (through conversions and merges) is the
 	// CONNECT's keep-alive or a positive constant (the default), and at least one
 	// leaf is the CONNECT's value
